@@ -182,7 +182,9 @@ func (p *processor) processEvent(event *Event) (isPassed bool, e *Event) {
 		event = stream.blockGet()
 		if event.IsTimeoutKind() {
 			// pass timeout directly to plugin which requested next sequential event.
-			event.action = lastAction
+			// It isn't always the last action: the previous event of the stream may
+			// have been discarded by an action that precedes the waiting one.
+			event.action = p.firstBusyAction(lastAction)
 		}
 	}
 }
@@ -240,6 +242,17 @@ func (p *processor) doActions(event *Event) (isPassed bool, lastAction int) {
 
 	// return the last action index as the event has passed all the actions
 	return true, l - 1
+}
+
+// firstBusyAction returns the index of the first action which waits for the
+// next sequential event, or fallback if there is no such action.
+func (p *processor) firstBusyAction(fallback int) int {
+	for i, busy := range p.busyActions {
+		if busy {
+			return i
+		}
+	}
+	return fallback
 }
 
 func (p *processor) tryMarkBusy(index int) {
